@@ -2516,7 +2516,7 @@ class Matrix:
             if isinstance(m, str):
                 if not m:
                     return
-                self.parse(m)
+                self.parse(m, **kwargs)
                 self.render(**kwargs)
             else:
                 self.a = m[0]
@@ -2651,7 +2651,7 @@ class Matrix:
         origin *= self
         return origin.angle_to(prx)
 
-    def parse(self, transform_str):
+    def parse(self, transform_str, **kwargs):
         """Parses the svg transform string.
 
         Transforms from SVG 1.1 have a smaller complete set of operations. Whereas in SVG 2.0 they gain
@@ -2754,8 +2754,14 @@ class Matrix:
                     except IndexError:
                         self.pre_skew_y(angle_b, x_param)
             except (IndexError, ValueError, TypeError, ArithmeticError):
+                if isinstance(state[4], Length) or isinstance(state[5], Length):
+                    # An unresolved length cannot be combined with a further function: not a malformed function.
+                    raise
                 # A function with missing or malformed parameters is in error: it is ignored.
                 self.a, self.b, self.c, self.d, self.e, self.f = state
+            if kwargs:
+                # Resolve lengths as soon as known, so that functions following translate(1in) can be combined.
+                self.render(**kwargs)
 
         return self
 
